@@ -50,7 +50,11 @@ def goodStmt (t : GateTpl) (s : TStmt) : Bool :=
        | _ => s.qargs.length == k && decide s.qargs.Nodup && s.qargs.all (· < t.nbits))
   | none => false
 
-def goodTpl (t : GateTpl) : Bool := t.stmts.all (goodStmt t)
+def goodTpl (t : GateTpl) : Bool :=
+  t.stmts.all (goodStmt t) &&
+    (match t.kind with
+     | .format (some k) => k == t.nbits
+     | _ => true)
 
 /-! ## arguments -/
 
@@ -72,9 +76,7 @@ theorem fieldParam_some (fields : List String) (ps : List (QParam P)) (f : Strin
     rw [List.idxOf?_eq_none_iff] at hi
     exact absurd hm hi
   | some i =>
-    have hlt : i < fields.length := by
-      have := List.idxOf?_eq_some_iff.1 hi
-      omega
+    have hlt : i < fields.length := (List.idxOf?_eq_some_iff.1 hi).1
     have : i < ps.length := by omega
     exact ⟨ps[i], List.getElem_mem _, by simp [this]⟩
 
@@ -111,5 +113,238 @@ theorem instArgT_closed (fields : List String) (ps : List (QParam P)) (hl : ps.l
   | div a b iha ihb =>
     simp only [paramsKnown, Bool.and_eq_true] at hk
     simp [instArgT, Arg.skeleton, idents, iha hk.1, ihb hk.2]
+
+/-! ## a library gate -/
+
+theorem nodup_map_getD (bits is : List Nat) (hn : bits.Nodup) (hi : is.Nodup) (hlt : ∀ i ∈ is, i < bits.length) :
+    (is.map fun k => bits.getD k 0).Nodup := by
+  refine List.Nodup.map_on ?_ hi
+  intro x hx y hy hxy
+  have h1 := hlt x hx
+  have h2 := hlt y hy
+  simp only [List.getD_eq_getElem?_getD, List.getElem?_eq_getElem h1, List.getElem?_eq_getElem h2,
+    Option.getD_some] at hxy
+  exact (List.Nodup.getElem_inj_iff hn).1 hxy
+
+/-- the qubit arguments of statement `s` of template `t` on `bits` -/
+def qubitsOf (t : GateTpl) (s : TStmt) (bits : List Nat) : List Nat :=
+  match t.kind with
+  | .plain => bits
+  | _ => s.qargs.map fun k => bits.getD k 0
+
+/-- the chunk statement `s` becomes -/
+def chunkOf (t : GateTpl) (ps : List (QParam P)) (bits : List Nat) (s : TStmt) : Chunk P :=
+  ⟨[], some ⟨s.name, s.args.map (instArgT t.params ps (.lit 0)), (qubitsOf t s bits).map (QRef.bit "q")⟩⟩
+
+theorem goodStmt_args (t : GateTpl) (s : TStmt) (h : goodStmt t s = true) :
+    ∀ e ∈ s.args, paramsKnown t.params e = true := by
+  unfold goodStmt at h
+  split at h
+  · simp only [Bool.and_eq_true, List.all_eq_true] at h
+    exact h.1.2
+  · cases h
+
+theorem goodStmt_qargs (t : GateTpl) (s : TStmt) (h : goodStmt t s = true) (hk : t.kind ≠ .plain) :
+    s.qargs.Nodup ∧ ∀ k ∈ s.qargs, k < t.nbits := by
+  unfold goodStmt at h
+  cases hs : signature true s.name with
+  | none => rw [hs] at h; cases h
+  | some nk =>
+    obtain ⟨np, k⟩ := nk
+    rw [hs] at h
+    cases hkind : t.kind with
+    | plain => exact absurd hkind hk
+    | format c =>
+      rw [hkind] at h
+      simp only [Bool.and_eq_true, decide_eq_true_eq, List.all_eq_true] at h
+      exact ⟨h.2.1.2, h.2.2⟩
+    | template =>
+      rw [hkind] at h
+      simp only [Bool.and_eq_true, decide_eq_true_eq, List.all_eq_true] at h
+      exact ⟨h.2.1.2, h.2.2⟩
+
+theorem args_mapM (t : GateTpl) (ps : List (QParam P)) (hps : ps.length = t.params.length) (s : TStmt)
+    (hs : goodStmt t s = true) :
+    s.args.mapM (instArg t.params ps) = some (s.args.map (instArgT t.params ps (.lit 0))) :=
+  mapM_eq_map _ _ _ fun e he => instArg_eq t.params ps (.lit 0) hps e (goodStmt_args t s hs e he)
+
+theorem bits_mapM (nq : Nat) (bits : List Nat) (hb : ∀ b ∈ bits, b < nq) :
+    bits.mapM (fun b => (qbitNames nq)[b]?) = some (bits.map (QRef.bit "q")) :=
+  mapM_eq_map _ _ _ fun b hbm => qbitNames_get nq b (hb b hbm)
+
+theorem libExport_eq (t : GateTpl) (hg : goodTpl t = true) (ps : List (QParam P))
+    (hps : ps.length = t.params.length) (nq : Nat) (bits : List Nat) (hb : ∀ b ∈ bits, b < nq)
+    (hl : bits.length = t.nbits) :
+    libExport t ps (qbitNames nq) bits = .ok (t.stmts.map (chunkOf t ps bits)) := by
+  simp only [goodTpl, Bool.and_eq_true, List.all_eq_true] at hg
+  obtain ⟨hst, hck⟩ := hg
+  unfold libExport
+  simp only [hps, ne_eq, not_true_eq_false, if_false]
+  cases hk : t.kind with
+  | format check =>
+    have hgo : libExport.go t ps (qbitNames nq) bits = .ok (t.stmts.map (chunkOf t ps bits)) := by
+      unfold libExport.go
+      rw [mapM_eq_map _ (chunkOf t ps bits)]
+      · rfl
+      · intro s hs
+        have hq := goodStmt_qargs t s (hst s hs) (by rw [hk]; intro h; cases h)
+        rw [args_mapM t ps hps s (hst s hs)]
+        have : s.qargs.mapM (nameOf (qbitNames nq) bits) =
+            some (s.qargs.map fun k => QRef.bit "q" (bits.getD k 0)) := by
+          refine mapM_eq_map _ _ _ fun k hkm => ?_
+          have hlt : k < bits.length := by rw [hl]; exact hq.2 k hkm
+          simp only [nameOf, List.getElem?_eq_getElem hlt]
+          rw [qbitNames_get nq _ (hb _ (List.getElem_mem _))]
+          simp [List.getD_eq_getElem?_getD, List.getElem?_eq_getElem hlt]
+        rw [this]
+        simp [chunkOf, qubitsOf, hk, List.map_map]
+    cases check with
+    | none => simpa using hgo
+    | some k =>
+      rw [hk] at hck
+      simp only [beq_iff_eq] at hck
+      simp only [hl, hck, ne_eq, not_true_eq_false, if_false]
+      exact hgo
+  | template =>
+    simp only [bits_mapM nq bits hb]
+    rw [mapM_eq_map _ (chunkOf t ps bits)]
+    · rfl
+    · intro s hs
+      have hq := goodStmt_qargs t s (hst s hs) (by rw [hk]; intro h; cases h)
+      rw [args_mapM t ps hps s (hst s hs)]
+      simp only [chunkOf, qubitsOf, hk, List.map_map, Option.pure_def, Option.bind_eq_bind, Option.bind_some,
+        Option.some.injEq, Chunk.mk.injEq, App.mk.injEq, true_and]
+      refine List.map_congr_left fun k hkm => ?_
+      have hlt : k < bits.length := by rw [hl]; exact hq.2 k hkm
+      simp [List.getD_eq_getElem?_getD, List.getElem?_eq_getElem hlt, hlt]
+  | plain =>
+    simp only [bits_mapM nq bits hb]
+    rw [mapM_eq_map _ (chunkOf t ps bits)]
+    · rfl
+    · intro s hs
+      rw [args_mapM t ps hps s (hst s hs)]
+      simp [chunkOf, qubitsOf, hk]
+
+theorem goodStmt_sig (t : GateTpl) (s : TStmt) (h : goodStmt t s = true) :
+    ∃ np k, signature true s.name = some (np, k) ∧ s.args.length = np ∧
+      (t.kind = .plain → t.nbits = k) ∧ (t.kind ≠ .plain → s.qargs.length = k) := by
+  unfold goodStmt at h
+  cases hs : signature true s.name with
+  | none => rw [hs] at h; cases h
+  | some nk =>
+    obtain ⟨np, k⟩ := nk
+    rw [hs] at h
+    refine ⟨np, k, rfl, ?_⟩
+    cases hkind : t.kind with
+    | plain =>
+      rw [hkind] at h
+      simp only [Bool.and_eq_true, beq_iff_eq] at h
+      exact ⟨h.1.1, ⟨fun _ => h.2, fun hne => absurd rfl hne⟩⟩
+    | format c =>
+      rw [hkind] at h
+      simp only [Bool.and_eq_true, beq_iff_eq] at h
+      exact ⟨h.1.1, ⟨fun he => TKind.noConfusion he, fun _ => h.2.1.1⟩⟩
+    | template =>
+      rw [hkind] at h
+      simp only [Bool.and_eq_true, beq_iff_eq] at h
+      exact ⟨h.1.1, ⟨fun he => TKind.noConfusion he, fun _ => h.2.1.1⟩⟩
+
+theorem chunkOf_ok (t : GateTpl) (hg : goodTpl t = true) (ps : List (QParam P))
+    (hps : ps.length = t.params.length) (hd : ∀ p ∈ ps, p.isDirect = true) (nq : Nat) (bits : List Nat)
+    (hn : bits.Nodup) (hb : ∀ b ∈ bits, b < nq) (hl : bits.length = t.nbits) (s : TStmt) (hs : s ∈ t.stmts) :
+    (chunkOf t ps bits s).conds = [] ∧ ∃ a, (chunkOf t ps bits s).app = some a ∧ AppOK nq a := by
+  have hg' := hg
+  simp only [goodTpl, Bool.and_eq_true, List.all_eq_true] at hg'
+  have hst := hg'.1 s hs
+  obtain ⟨np, k, hsig, hnp, hpl, hnpl⟩ := goodStmt_sig t s hst
+  refine ⟨rfl, _, rfl, ?_, ?_, ?_⟩
+  · refine ⟨np, k, hsig, by simp [hnp], ?_⟩
+    simp only [List.length_map, qubitsOf]
+    cases hk : t.kind with
+    | plain => simp [← hpl hk, hl]
+    | format c => simp [hnpl (by rw [hk]; intro h; cases h)]
+    | template => simp [hnpl (by rw [hk]; intro h; cases h)]
+  · intro e he
+    obtain ⟨e0, he0, rfl⟩ := List.mem_map.1 he
+    exact instArgT_closed t.params ps hps hd e0 (goodStmt_args t s hst e0 he0)
+  · refine ⟨qubitsOf t s bits, rfl, ?_, ?_⟩
+    · unfold qubitsOf
+      cases hk : t.kind with
+      | plain => exact hn
+      | format c =>
+        have hq := goodStmt_qargs t s hst (by rw [hk]; intro h; cases h)
+        exact nodup_map_getD bits s.qargs hn hq.1 fun i hi => by rw [hl]; exact hq.2 i hi
+      | template =>
+        have hq := goodStmt_qargs t s hst (by rw [hk]; intro h; cases h)
+        exact nodup_map_getD bits s.qargs hn hq.1 fun i hi => by rw [hl]; exact hq.2 i hi
+    · intro i hi
+      unfold qubitsOf at hi
+      have key : ∀ ks : List Nat, (∀ k ∈ ks, k < bits.length) → i ∈ ks.map (fun k => bits.getD k 0) → i < nq := by
+        intro ks hks him
+        obtain ⟨k, hk1, rfl⟩ := List.mem_map.1 him
+        have hlt := hks k hk1
+        simp only [List.getD_eq_getElem?_getD, List.getElem?_eq_getElem hlt, Option.getD_some]
+        exact hb _ (List.getElem_mem _)
+      cases hk : t.kind with
+      | plain => rw [hk] at hi; exact hb i hi
+      | format c =>
+        rw [hk] at hi
+        have hq := goodStmt_qargs t s hst (by rw [hk]; intro h; cases h)
+        exact key s.qargs (fun k hk1 => by rw [hl]; exact hq.2 k hk1) hi
+      | template =>
+        rw [hk] at hi
+        have hq := goodStmt_qargs t s hst (by rw [hk]; intro h; cases h)
+        exact key s.qargs (fun k hk1 => by rw [hl]; exact hq.2 k hk1) hi
+
+/-! ## gates -/
+
+def QOps.nonEmpty : QOps P → Bool
+  | .nil => false
+  | .cons _ _ _ => true
+
+mutual
+/-- every leaf is a library gate with a good template and direct parameters; composites and executed loops are
+not empty; sub-gates sit on distinct local bits in range, with the right arity -/
+def QGate.sound (tbl : List GateTpl) : QGate P → Bool
+  | .lib name ps =>
+    match lookupTpl tbl name with
+    | some t => goodTpl t && ps.length == t.params.length && ps.all QParam.isDirect
+    | none => false
+  | .ctrl _ => false
+  | .kron a b => a.sound tbl && b.sound tbl
+  | .composite _ n ops => ops.nonEmpty && ops.sound tbl n
+  | .loop _ iters _ n body => decide (0 < iters) && body.nonEmpty && body.sound tbl n
+def QOps.sound (tbl : List GateTpl) (n : Nat) : QOps P → Bool
+  | .nil => true
+  | .cons g sub rest =>
+    g.sound tbl && sub.length == nbits tbl g && decide sub.Nodup && sub.all (· < n) && rest.sound tbl n
+end
+
+theorem withCond_ok (nq : Nat) (cond : Option Nat) (cs : List (Chunk P))
+    (h : ∀ c ∈ cs, c.conds = [] ∧ ∃ a, c.app = some a ∧ AppOK nq a) : ∀ c ∈ withCond cond cs, ChunkOK nq c := by
+  intro c hc
+  cases cond with
+  | none =>
+    obtain ⟨h1, h2⟩ := h c hc
+    exact ⟨by simp [h1], h2⟩
+  | some k =>
+    cases cs with
+    | nil => cases hc
+    | cons c0 rest =>
+      simp only [withCond, prefixCond, List.mem_cons] at hc
+      rcases hc with rfl | hc
+      · obtain ⟨h1, h2⟩ := h c0 (List.mem_cons_self ..)
+        exact ⟨by simp [h1], h2⟩
+      · obtain ⟨h1, h2⟩ := h c (List.mem_cons_of_mem _ hc)
+        exact ⟨by simp [h1], h2⟩
+
+theorem mem_repeatAppend {α} (xs : List α) (n : Nat) (x : α) (h : x ∈ repeatAppend xs n) : x ∈ xs := by
+  induction n with
+  | zero => cases h
+  | succ n ih =>
+    simp only [repeatAppend, List.mem_append] at h
+    rcases h with h | h
+    · exact h
+    · exact ih h
 
 end Q1t.OpenQasm
